@@ -48,8 +48,11 @@ WITNESS_CRASH = [
     ("C09-specials-nonstring-constant", "[windows-registry-key:values[*].name IN ('A')]"),
     ("C09-specials-embedded-nul", "[ipv4-addr:value = '1.2.3.4\x00']"),
     ("C09-specials-embedded-nul", "[ipv6-addr:value = '::1\x00/64']"),
+    ("C09-specials-hex-binary-constant", "[ipv4-addr:value = h'00' OR ipv4-addr:value = h'01']"),
+    ("C09-specials-hex-binary-constant", "[ipv4-addr:value = b'1234' OR ipv4-addr:value = b'1235']"),
     ("C09-dnf-empty-or", "[a:x = 1 AND (a:y = 2 OR (a:b = 1 AND a:c = 2 AND (d:e = 3 OR d:f = 4)))]"),
     ("C09-and-disjoint-root-types", "[a:b = 1 AND c:d = 2]"),
+    ("C09-visitor-root-types-first-two-operands", "[(a:x = 1 OR a:y = 2 OR b:y = 2) AND b:z = 3]"),
     ("C09-within-float", "[a:b = 1] WITHIN 5.5 SECONDS"),
     ("C09-timestamp-literal", "[a:b = t'2014-01-13T07:03:17.1234567Z']"),
     ("C09-timestamp-literal", "[a:b = t'2014-01-13T07:03:60Z']"),
@@ -65,7 +68,13 @@ WITNESS_UNSOUND = [
     ("C09-visitor-drops-not", "[a:b NOT IN (1, 2)]", "[a:b IN (1, 2)]"),
     ("C09-visitor-drops-not", "[a:b NOT LIKE 'x%']", "[a:b LIKE 'x%']"),
     ("C09-visitor-drops-not", "[a:b NOT != 1]", "[a:b != 1]"),
+    ("C09-specials-hex-binary-constant", "[windows-registry-key:key = b'QUJD']", "[windows-registry-key:key = b'qujd']"),
     ("C09-regkey-lowercases-regex", "[windows-registry-key:key MATCHES '\\\\D']", "[windows-registry-key:key MATCHES '\\\\d']"),
+]
+# (finding id, p, q): a listed rewrite applied at the root that is not recognised
+WITNESS_UNRECOGNISED = [
+    ("C09-absorption-qualified-operand", "[a:x=1] REPEATS 2 TIMES", "[a:x=1] REPEATS 2 TIMES OR ([a:x=1] REPEATS 2 TIMES AND [c:z=3])"),
+    ("C09-absorption-qualified-operand", "[a:x=1] WITHIN 5 SECONDS", "([c:z=3] FOLLOWEDBY [a:x=1] WITHIN 5 SECONDS) OR [a:x=1] WITHIN 5 SECONDS"),
 ]
 
 
@@ -87,7 +96,7 @@ def gen_family(rng, depth):
     g = G.Gen(rng, depth)
     for _ in range(50):
         base = G.normalize_shape(g.pattern())
-        if not G.leaf_qualifier_clash(base) and G.size(base) <= 60:
+        if not G.leaf_qualifier_clash(base) and G.size(base) <= 60 and not G.too_costly(base):
             break
     members = [("base", base, [])]
     rels = []          # (i, j, kind, names)
@@ -99,7 +108,7 @@ def gen_family(rng, depth):
             if r is None:
                 break
             cand = G.normalize_shape(r[0])
-            if G.leaf_qualifier_clash(cand) or G.size(cand) > 90:
+            if G.leaf_qualifier_clash(cand) or G.size(cand) > 90 or G.too_costly(cand):
                 break
             cur = cand
             names.append(r[1])
@@ -113,21 +122,33 @@ def gen_family(rng, depth):
     rels.append((1, 2, "rewrite", n2))
     rels.append((0, 2, "rewrite", n1 + n2))
     ed = G.edit(rng, rng.choice([base, q1]))
-    if ed is not None and not G.leaf_qualifier_clash(G.normalize_shape(ed[0])):
+    if ed is not None and not G.leaf_qualifier_clash(G.normalize_shape(ed[0])) and not G.too_costly(ed[0]):
         members.append(("edit", G.normalize_shape(ed[0]), [ed[1]]))
         rels.append((0, len(members) - 1, "edit", [ed[1]]))
         rels.append((1, len(members) - 1, "edit", [ed[1]]))
     ind = G.normalize_shape(g.pattern())
-    if not G.leaf_qualifier_clash(ind):
+    if not G.leaf_qualifier_clash(ind) and G.size(ind) <= 60 and not G.too_costly(ind):
         members.append(("indep", ind, []))
         rels.append((0, len(members) - 1, "indep", []))
     return members, rels
 
 
-def pure_documented(names):
-    """rewrites the property text lists (and the code documents)"""
-    ok = {"commute", "associate", "idempotent", "distribute", "factor", "absorb", "set-order", "numeric"}
-    return bool(names) and all(n.replace("c-", "").replace("o-", "").replace("-or", "") in ok for n in names)
+def gen_rule_family(rng):
+    """lhs / rhs of ONE rewrite the property lists, applied at the root with generated sub-expressions"""
+    for _ in range(50):
+        name, lhs, rhs, a = G.rule_instance(rng)
+        lhs, rhs = G.normalize_shape(lhs), G.normalize_shape(rhs)
+        if not (G.leaf_qualifier_clash(lhs) or G.leaf_qualifier_clash(rhs) or G.too_costly(lhs) or G.too_costly(rhs)):
+            break
+    members = [("base", lhs, []), ("rule", rhs, [name])]
+    return members, [(0, 1, "rule", [name])], a
+
+
+def classify_unrecognised(name, a):
+    """finding id for a listed rewrite that equivalent_patterns does not recognise at the root, or None"""
+    if name.startswith("o-absorb") and a[0] == "qual":
+        return "C09-absorption-qualified-operand"
+    return None
 
 
 # --------------------------------------------------------------------------
@@ -150,12 +171,20 @@ def classify_crash(ast, stage, exc):
     if stage == "norm" and name == "ValueError" and where.startswith("specials.py:") and "null" in msg:
         if ast is None or has_atom(ast, lambda a: special(a) and a[5][0] == "str" and "\x00" in a[5][1]):
             return "C09-specials-embedded-nul"
+    if stage == "norm" and name in ("ValueError", "Error") and where in ("comparison.py:hex_cmp", "comparison.py:bin_cmp"):
+        if ast is None or has_atom(ast, lambda a: special(a) and a[5][0] in ("hex", "bin")):
+            return "C09-specials-hex-binary-constant"
     if stage == "norm" and name == "AttributeError" and "root_types" in msg:
         if ast is None or any(x[0] == "and" and G.root_types(x) is None for _, x in G.positions(ast)):
             return "C09-dnf-empty-or"
     if stage == "parse" and name == "ValueError" and "satisfiable with the same object type" in msg:
         if ast is None or any(x[0] == "and" and G.root_types(x) is None for _, x in G.positions(ast)):
             return "C09-and-disjoint-root-types"
+    if stage == "parse" and name == "ValueError" and "satisfiable with the same object type" in msg:
+        # every AND of the pattern has a common object type, but the visitor computed root_types from the
+        # first two operands of an n-ary node only
+        if ast is not None and any(x[0] in ("and", "or") and G.visitor_root_types(x) is None for _, x in G.positions(ast)):
+            return "C09-visitor-root-types-first-two-operands"
     if stage == "parse" and name == "ValueError" and "Within Qualifier" in msg:
         if ast is None or any(x[0] == "qual" and x[2][0] == "withinf" for _, x in G.positions(ast)):
             return "C09-within-float"
@@ -195,6 +224,24 @@ def as_pinned_visitor(ast):
     return f(ast)
 
 
+def bin_lowered(ast):
+    """the meaning the pinned special-value pass gives to a base64 constant on a registry-key path: its text lower-cased"""
+    def f(x):
+        if x[0] == "atom":
+            _, typ, steps, op, neg, k = x
+            if E.special_kind(typ, steps) == "reg" and k[0] == "bin":
+                return ("atom", typ, steps, op, neg, ("bin", k[1].lower()))
+            return x
+        if x[0] in ("and", "or", "oand", "oor", "ofby"):
+            return (x[0], [f(y) for y in x[1]])
+        if x[0] == "obs":
+            return ("obs", f(x[1]))
+        if x[0] == "qual":
+            return ("qual", f(x[1]), x[2])
+        return x
+    return f(ast)
+
+
 def regex_lowered(ast):
     def f(x):
         if x[0] == "atom":
@@ -217,6 +264,11 @@ def classify_unsound(p, q, seq):
     pv, qv = as_pinned_visitor(p), as_pinned_visitor(q)
     if (pv != p or qv != q) and E.matches(pv, seq) == E.matches(qv, seq):
         return "C09-visitor-drops-not"
+    binreg = lambda a: E.special_kind(a[1], a[2]) == "reg" and a[5][0] == "bin"   # noqa: E731
+    if has_atom(p, binreg) and has_atom(q, binreg):
+        pb, qb = bin_lowered(p), bin_lowered(q)
+        if E.matches(pb, seq) == E.matches(qb, seq):
+            return "C09-specials-hex-binary-constant"
     pl, ql = regex_lowered(p), regex_lowered(q)
     if (pl != p or ql != q) and E.matches(pl, seq) == E.matches(ql, seq):
         return "C09-regkey-lowercases-regex"
@@ -269,6 +321,7 @@ def select_mode(run):
     returns the special_mode the code corresponds to"""
     cases = [{"op": "norm", "p": p} for _, p in WITNESS_CRASH]
     cases += [{"op": "equiv", "p": p, "q": q} for _, p, q in WITNESS_UNSOUND]
+    cases += [{"op": "equiv", "p": p, "q": q} for _, p, q in WITNESS_UNRECOGNISED]
     res = common.run_impl("c09_impl", cases, procs=2)
     crashed = {}
     for (fid, p), r in zip(WITNESS_CRASH, res):
@@ -279,6 +332,8 @@ def select_mode(run):
             stage, exc = "norm", r["norm"]
         if stage and r.get("valid"):
             got = classify_crash(None, stage, exc)
+            if got == "C09-and-disjoint-root-types" and fid == "C09-visitor-root-types-first-two-operands":
+                got = fid      # same exception; the witness itself has a common object type in every AND
             run.violations.append(Violation(
                 "equivalence test raises %s (%s) on the validator-accepted pattern %r" % (exc["exc"], exc["where"], p),
                 {"kind": "crash", "pattern": p, "stage": stage, "exc": exc}, finding=got))
@@ -288,15 +343,23 @@ def select_mode(run):
             run.violations.append(Violation(
                 "equivalent_patterns(%r, %r) is True although the patterns match different observations" % (p, q),
                 {"kind": "unsound-witness", "p": p, "q": q}, finding=fid))
+    for (fid, p, q), r in zip(WITNESS_UNRECOGNISED, res[len(WITNESS_CRASH) + len(WITNESS_UNSOUND):]):
+        if r.get("r") is False:
+            run.violations.append(Violation(
+                "equivalent_patterns(%r, %r) is False although the second is the first after one documented absorption" % (p, q),
+                {"kind": "recognise", "p": p, "q": q, "rewrites": ["o-absorb"]}, finding=fid))
     unguarded = "C09-specials-nonstring-constant" in crashed or "C09-specials-embedded-nul" in crashed
+    lowers = any(v.finding == "C09-regkey-lowercases-regex" for v in run.violations)
     run.coverage["variant"] = {"special_mode": "Unguarded" if unguarded else "Guarded",
+                               "regex_mode": "LowerRegex" if lowers else "KeepRegex",
                                "witness_crashes": {k: len(v) for k, v in crashed.items()}}
-    return "Unguarded" if unguarded else "Guarded"
+    return "(mkVariant %s %s)" % ("Unguarded" if unguarded else "Guarded", "LowerRegex" if lowers else "KeepRegex")
 
 
 def check(run):
     thorough = run.tier == "thorough"
     nfam = 1500 if thorough else 300
+    nrule = 3000 if thorough else 500
     depth = 6 if thorough else 4
     run.coverage["rule"] = (
         "families of patterns from a grammar-directed generator (all operators with and without NOT, all constant "
@@ -315,8 +378,13 @@ def check(run):
     rng = run.rng
     fams = []
     pats = []
-    for _ in range(nfam):
-        members, rels = gen_family(rng, depth)
+    rule_meta = {}
+    for n in range(nfam + nrule):
+        if n < nfam:
+            members, rels = gen_family(rng, depth)
+        else:
+            members, rels, meta_a = gen_rule_family(rng)
+            rule_meta[len(pats)] = meta_a
         ps = []
         for kind, ast, names in members:
             p = Pat(ast, rng, 0.06)
@@ -454,7 +522,7 @@ def check(run):
         run.coverage["correspondence_cases"] = compared
         run.coverage["correspondence_disagreements"] = len(dis)
         run.coverage["model_fuel_exhausted"] = fuel_out
-        run.coverage["outside_model"] = {"dump_not_expressible": unmodelled, "hex_or_binary_constant_on_special_path": skipped_unmodelled}
+        run.coverage["outside_model"] = {"dump_not_expressible": unmodelled, "hex_or_binary_constant_rewritten_to_an_address_text": skipped_unmodelled}
         if dis:
             run.broken.append(Broken("correspondence", "Model/PatternEq.v vs stix2.equivalence.pattern",
                                      {"first": dis[:5], "count": len(dis)}))
@@ -466,7 +534,9 @@ def check(run):
     search_count = 40
     if run.broken:
         search_count = 300     # something no longer checks: search harder for a failing input
-    stats = {"refl": 0, "sym": 0, "trans": 0, "sound_checked": 0, "recognise": 0, "find": 0, "reported_equal": 0}
+    stats = {"refl": 0, "sym": 0, "trans": 0, "sound_checked": 0, "recognise": 0, "find": 0, "reported_equal": 0,
+             "rewrite_chains": 0, "rewrite_chains_recognised": 0}
+    rules_hist = {}
     for (kind, a, b, names), r in zip(ecases, eres):
         fine = usable(a) and usable(b) and not is_exc(a.impl.get("norm")) and not is_exc(b.impl.get("norm"))
         nontrivial = fine and (G.size(a.ast) > 2 or G.size(b.ast) > 2)
@@ -493,12 +563,17 @@ def check(run):
                     {"kind": "symmetric", "p": a.text, "q": b.text}))
         if kind.endswith("-rev") or kind == "trans":
             continue
-        if kind == "rewrite" and pure_documented(names):
+        if kind == "rewrite":
+            stats["rewrite_chains"] += 1
+            stats["rewrite_chains_recognised"] += 1 if r["r"] is True else 0
+        if kind == "rule":
             stats["recognise"] += 1
+            rules_hist[names[0]] = rules_hist.get(names[0], 0) + 1
             if r["r"] is not True:
                 run.violations.append(Violation(
-                    "documented rewrite(s) %s not recognised: %r vs %r" % (names, a.text, b.text),
-                    {"kind": "recognise", "p": a.text, "q": b.text, "rewrites": names}))
+                    "listed rewrite %s applied at the root is not recognised: %r vs %r" % (names[0], a.text, b.text),
+                    {"kind": "recognise", "p": a.text, "q": b.text, "rewrites": names},
+                    finding=classify_unrecognised(names[0], rule_meta[a.idx])))
         if r["r"] is True:
             stats["reported_equal"] += 1
             stats["sound_checked"] += 1
@@ -541,6 +616,7 @@ def check(run):
                 "find_equivalent_patterns returns members %s, the pairwise test says %s" % (r["r"], want),
                 {"kind": "find", "p": a.text, "ps": [x.text for x in coll]}))
     run.coverage["oracle"] = stats
+    run.coverage["rule_instances"] = dict(sorted(rules_hist.items()))
     for p in pats[:3]:
         run.sample({"pattern": p.text, "normal_form": impl_line_norm(p.impl)})
     for (kind, a, b, names), r in list(zip(ecases, eres))[:40]:
